@@ -93,6 +93,7 @@ theorem other_fwd_source (s : Node) (e : Event) (c : Nat) (f : Fwd) (h : (c, f) 
   cases e with
   | accept k => simp [step] at h
   | role r => simp [step] at h
+  | unattached d => simp [step] at h
   | request d short q => exact absurd rfl (hreq d short q)
   | close d =>
     simp only [step, stepClose] at h
